@@ -740,6 +740,9 @@ func (se *SpecEnv) evalCall(x *SExpr) TV {
 			ra, rb = c.lof(se.Cur, ra), c.lof(se.Cur, rb)
 		}
 		return TV{cmp3(ra, rb), types.Typ[types.Int]}
+	case "krank":
+		// the position of an abstract user key in the user order (equal for equal keys)
+		return TV{se.keyRank(se.eval(args[0])), nil}
 	case "ikcmp":
 		a, ok1 := se.eval(args[0]).V.(*IKeyV)
 		b, ok2 := se.eval(args[1]).V.(*IKeyV)
@@ -796,6 +799,14 @@ func (se *SpecEnv) evalCall(x *SExpr) TV {
 			se.fail("samebase needs slices")
 		}
 		return TV{And(Eq(a.Base, b.Base), Eq(a.Off, b.Off)), bt}
+	case "sameblock":
+		// the two slices point into the same allocated array (nil slices share nothing)
+		a, _ := se.asSlice(se.eval(args[0]))
+		b, _ := se.asSlice(se.eval(args[1]))
+		if a == nil || b == nil {
+			se.fail("sameblock needs slices")
+		}
+		return TV{And(Eq(a.Base, b.Base), Not(Eq(a.Base, IntC(0)))), bt}
 	case "base":
 		a, _ := se.asSlice(se.eval(args[0]))
 		if a == nil {
